@@ -232,7 +232,9 @@ class LALR_Analyzer(GrammarAnalyzer):
             includes = []
             lookback = self.lookback[nt]
             for rp in state.closure:
-                if rp.rule.origin != nonterminal:
+                # Only the productions of nonterminal that start in this state take part in the relations
+                # (a kernel item `A -> a . b` was not started here; walking it added bogus includes edges)
+                if rp.rule.origin != nonterminal or rp.index != 0:
                     continue
                 # traverse the states for rp(.rule)
                 state2 = state
